@@ -319,6 +319,25 @@ func (e *Encoder) encodeComplex(x starlark.Value) {
 			e.w.WriteByte(opSETITEMS)
 		}
 
+	case starlark.Iterable:
+		// A value that can only be iterated (the result of "abc".elems(), ...) is written as
+		// the list of its elements.
+		e.w.WriteByte(opEMPTY_LIST)
+		e.memoize(x)
+
+		it := x.Iterate()
+		defer it.Done()
+
+		var el starlark.Value
+		for more := it.Next(&el); more; {
+			e.w.WriteByte(opMARK)
+			for n := 0; more && n < 1000; n++ {
+				e.encode(el)
+				more = it.Next(&el)
+			}
+			e.w.WriteByte(opAPPENDS)
+		}
+
 	default:
 		panic(failure(fmt.Errorf("cannot pickle value of type %T", x)))
 	}
